@@ -242,6 +242,26 @@ def check(chk):
     f = m["_remove_mode_event_handlers"]
     ok = any(call_attr(c) == "remove_handler_by_key" and src(c.args[0]) == "key" for c in f.calls())
     chk.ob("DOM-15", "tracked event handlers are removed by their keys", ok, f.where(), construct=f.ident, text="remove by key")
+    f = m["_remove_mode_switch_handlers"]
+    lp_ = [x for x in ast.walk(f.node) if isinstance(x, ast.For)]
+    ok = bool(lp_) and any(isinstance(c, ast.Call) and call_attr(c) in ("remove_switch_handler_by_key", "remove_switch_handler_by_keys") and c.args and
+                           src(c.args[0]) == src(lp_[0].target) for c in ast.walk(lp_[0])) or \
+        any(call_attr(c) == "remove_switch_handler_by_keys" and c.args and src(c.args[0]) == "self.switch_handlers" for c in f.calls())
+    chk.ob("DOM-15", "tracked switch handlers are removed by their keys", ok, f.where(), construct=f.ident, text="remove switch handlers by key")
+    # add_mode_event_handler hands everything to the event manager and returns the key
+    f = m["add_mode_event_handler"]
+    ah = [c for c in f.calls() if call_attr(c) == "add_handler"]
+    if ah:
+        c = ah[0]
+        a = [src(x) for x in c.args]
+        kws = {k.arg: src(k.value) for k in c.keywords}
+        ok = a[:2] == ["event", "handler"] and kws.get("mode") == "self" and kws.get(None) == "kwargs"
+        chk.ob("OWN-7", "add_mode_event_handler passes event, handler, the mode and the handler kwargs on", ok, f.where(c), detail="%s %s" % (a, kws),
+               construct=f.ident, text="add_mode_event_handler forwarding")
+    fcfg = f.cfg()
+    rets = [r for r in fcfg.nodes if r.kind == "stmt" and isinstance(r.ast, ast.Return)]
+    ok = bool(rets) and all(r.ast.value is not None and src(r.ast.value) == "key" for r in rets) and fcfg.must_pass(fcfg.entry.id, [r.id for r in rets]) is None
+    chk.ob("OWN-7", "add_mode_event_handler returns the handler's key", ok, f.where(), construct=f.ident, text="add_mode_event_handler return")
     f = m["_remove_mode_devices"]
     ok = any(call_attr(c) == "device_removed_from_mode" for c in f.calls())
     chk.ob("DOM-15", "every mode device is told that the mode unloads", ok, f.where(), construct=f.ident, text="device_removed_from_mode")
@@ -309,6 +329,17 @@ def check(chk):
                 any(call_attr(x) == "clear" and "_get_instance_dict" in src(x) for x in cc.calls())
             chk.ob("SIB-1", "%s.clear_context resets the per-context state" % c.name, resets, cc.where(), construct=cc.ident,
                    text="clear_context without reset in " + c.name)
+            # the undo: when the records hold objects (devices, shows, ...) clear_context does something with each of them
+            loops_cc = [x for x in ast.walk(cc.node) if isinstance(x, ast.For) and "_get_instance_dict" in src(x.iter)]
+            stores_obj = any(isinstance(t, ast.Subscript) and isinstance(getattr(t, "ctx", None), ast.Store) for _m, t in writes if isinstance(t, ast.Subscript))
+            if loops_cc:
+                for lp in loops_cc:
+                    tv = {x.id for x in ast.walk(lp.target) if isinstance(x, ast.Name)} - {"_"}
+                    acts = [c_ for st in lp.body for c_ in ast.walk(st) if isinstance(c_, ast.Call) and
+                            ({x.id for x in ast.walk(c_) if isinstance(x, ast.Name)} & tv)]
+                    chk.ob("SIB-1", "%s.clear_context acts on every record it walks (removes what play registered)" % c.name, bool(acts), cc.where(lp),
+                           detail="the loop over the per-context records has no effect: what the player set at devices stays after the mode",
+                           construct=cc.ident, text="clear_context loop without effect in " + c.name)
             # the reset uses the same context key as the writer
             wctx = set()
             for meth in c.methods.values():
@@ -536,6 +567,11 @@ def battery():
         M("stop methods skipped when no callback", MD, "        for item in self.stop_methods:\n            item[0](item[1])", "        for item in (self.stop_methods if self.stop_callbacks else []):\n            item[0](item[1])", "DOM-15"),
         M("event player keeps condition state", EP, "    def clear_context(self, context):\n        \"\"\"Forget the condition values seen in this context.\"\"\"\n        self._reset_instance_dict(context)\n\n", "", "SIB-1"),
         M("light player keeps its records after clear", "mpf/config_players/light_player.py", "            light.remove_from_stack_by_key(full_context)\n\n        self._reset_instance_dict(context)", "            light.remove_from_stack_by_key(full_context)\n", "SIB-1"),
+        M("mode switch handlers not removed", MD, "        for handler in self.switch_handlers:\n            self.machine.switch_controller.remove_switch_handler_by_key(handler)\n", "", "DOM-15"),
+        M("mode switch handlers: loop without removal", MD, "            self.machine.switch_controller.remove_switch_handler_by_key(handler)\n", "            pass\n", "DOM-15"),
+        M("mode handler kwargs dropped", MD, "self.priority + priority, mode=self, **kwargs)", "self.priority + priority, mode=self)", "OWN-7"),
+        M("mode handler key not returned", MD, "        self.event_handlers.add(key)\n\n        return key", "        self.event_handlers.add(key)", "OWN-7"),
+        M("blinkenlight colours stay after the mode", "mpf/config_players/blinkenlight_player.py", "            blinkenlight.remove_color_with_key(key)\n        self._reset_instance_dict(context)", "            pass\n        self._reset_instance_dict(context)", "SIB-1"),
         M("clear_context without reset", "mpf/config_players/coil_player.py", "        self._reset_instance_dict(context)", "        pass", "SIB-1"),
         M("mode_stop keeps handlers", CP, "        self.unload_player_events(self.mode_event_keys.pop(mode, list()))\n        self.clear_context(mode.name)", "        self.clear_context(mode.name)", "PAIR-8"),
         M("subscriptions not cancelled", CP, "        for future in key_list[1].values():\n            future.cancel()\n", "", "PAIR-8"),
